@@ -9,6 +9,17 @@ from mirlib import show, nosite, strip_casts, strip_refs, subexprs
 WIDTHS = {'Bool': 1, 'I8': 1, 'Double': 8, 'I16': 2, 'I32': 4, 'I64': 8, 'Uuid': 16}
 
 
+_ST = {}
+
+
+def see_through(b, keep=('advance', 'advance_mut')):
+    """the method with its private helpers (non-public inherent functions of the unchecked codec) spliced in"""
+    k = (b.id, keep)
+    if k not in _ST:
+        _ST[k] = mirlib.inline_calls(b, lambda cs, callee: callee.vis != 'Public' and callee.key.startswith('thrift::binary_unsafe::') and callee.name not in keep)
+    return _ST[k]
+
+
 def _root_field(body, e):
     """name of the field of self an expression is rooted in"""
     x = e
@@ -180,6 +191,7 @@ def writer_cursor(rep, rule, prog, cg):
     for label, d in (('BytesMut', fam.W), ('LinkedBytes', fam.L)):
         for name, b in sorted(d.items()):
             rep.functions.add(b.id)
+            b = see_through(b)
             stores = []
             for cs in b.calls():
                 if cs.name in ('get_unchecked_mut', 'as_mut_ptr') and cs.t['args']:
@@ -221,6 +233,7 @@ def zero_copy_sites(rep, rule, prog, cg):
     fam = tp.Fam(prog, cg, 'binary_unsafe')
     n = 0
     for name, b in sorted(fam.L.items()):
+        b = see_through(b)
         for cs in b.calls():
             if re.search(r'linkedbytes::LinkedBytes::(insert|insert_faststr)$', cs.callee):
                 n += 1
@@ -247,6 +260,7 @@ def reader_accounting(rep, rule, prog, cg):
     n = 0
     for name, b in sorted(fam.R.items()):
         rep.functions.add(b.id)
+        b = see_through(b)
         advs = [cs for cs in b.calls() if cs.name == 'advance' and 'TBinaryUnsafeInputProtocol' in cs.callee and codec.is_self(b, cs.arg(0))]
         for cs in b.calls():
             if re.search(r'bytes::Bytes::split_to$', cs.callee):
